@@ -54,7 +54,8 @@ Clauses == ClausesIn(D!ConvertDef(X))
 \* PinValid.tla); the domain is then: a header and at least one more line, no empty field at a line start / end
 ValidOnly == T.mode = "valid"
 ValidDomain == /\ Len(T.lines_in) >= 2
-               /\ \A i \in 1..Len(T.lines_in) : LET ln == T.lines_in[i] IN Len(ln) >= 1 /\ ln[1] # "" /\ ln[Len(ln)] # ""
+               /\ \A i \in 1..Len(T.lines_in) : LET ln == T.lines_in[i] IN
+                     Len(ln) >= 1 /\ ln[1] # "" /\ (ln[Len(ln)] # "" \/ (i >= 2 /\ Len(ln) >= 2))   \* (a data line may END in an empty field)
 Failed == IF ValidOnly THEN (IF ~ValidDomain THEN {}
                              ELSE (IF T.raised = "" THEN {} ELSE {"NoRaise"}) \cup
                                   (IF T.valid_in = D!ValidDef(X) THEN {} ELSE {"ValidIn"}))
